@@ -70,6 +70,21 @@ def run_c07(ctx):
     tf = ctx.drive("hist", rc, hashseeds=(0, 1, 2) if quick else tuple(range(16)))
     ctx.validate(tf, {c["id"]: c for c in rc}, driver="hist")
     _stats(tf, ctx, {"Apply", "ApplyOp", "IsApplicableOp", "RunPlan", "CopyState", "ExportTrajectory", "ParseTrajectory"})
+    # schedules: two threads on one shared domain, thread A pre-empted at sampled lines of its apply
+    tc = []
+    for i in range(24 if quick else 400):
+        # no numeric conditions here: a nested numeric condition is hashed through the symbolic simplifier on
+        # every grounding, which under line tracing costs seconds per call and adds nothing about shared state
+        c = gen_hist.gen_case(ctx.seed, 200000 + i, with_numeric=False)
+        c["points"] = 30 if quick else 120
+        c["pairs"] = 3
+        tc.append(c)
+    tf3 = ctx.drive("threads", tc, hashseeds=(0, 1, 2) if quick else tuple(range(16)))
+    ctx.validate(tf3, {c["id"]: c for c in tc}, driver="threads")
+    inter = 0
+    for line in open(tf3):
+        inter += sum(1 for e in json.loads(line)["ev"] if e.get("thread") == "A")
+    ctx.extra["thread_interleavings"] = inter
     snaps = 0
     for line in open(tf):
         snaps += sum(1 for e in json.loads(line)["ev"] if e["c"] == "Snap")
@@ -78,7 +93,9 @@ def run_c07(ctx):
                 "every flag combination on initial, earlier and later states, re-use of one Operator object, copies, equality, "
                 "plan execution, export, re-parse); after every call the projection of every live state / run and the digest of "
                 "the domain (vocabulary, exported text, effect walk, Domain().types of a fresh Domain) is logged and TLC "
-                "checks store'[h] = store[h] for every handle (TraceApi!JSnap) and that repeated calls give equal results. "
+                "checks store'[h] = store[h] for every handle (TraceApi!JSnap) and that repeated calls give equal results; "
+                "two-thread interleavings on a shared domain: thread A's apply is pre-empted at sampled executed lines inside the "
+                "library (sys.settrace scheduler), thread B runs a whole call there, both results judged as if run alone. "
                 "distinct_nontrivial = distinct (domain, call-kind sequence) histories")
 
 
